@@ -5,6 +5,7 @@
   script.  All property theorems are inductions over `rounds`.
 -/
 import EinoV.Model.C18
+import EinoV.Proofs.C18Asm
 import EinoV.Expected.C18
 
 namespace EinoV.C18
@@ -12,18 +13,24 @@ open EinoV.Expected.C18 (facts topoPlain topoRD firstChunkChecker)
 
 /-! ## concatenation -/
 
-theorem concat_single (m : Msg) (hr : m.role = .assistant) (hc : m.callId = "") :
-    concat [Chunk.ofMsg m] = m := by
+/-- boxing an assistant message whose tool calls are already assembled into a one-chunk stream
+    and concatenating that stream gives the message back -/
+theorem concat_single (m : Msg) (hr : m.role = .assistant) (hc : m.callId = "")
+    (ha : assemble m.calls = m.calls) : concat [Chunk.ofMsg m] = m := by
   cases m with
   | mk role content calls callId =>
-    simp only at hr hc
+    simp only at hr hc ha
     subst hr; subst hc
-    simp [concat, Chunk.ofMsg, String.join]
+    simp [concat, Chunk.ofMsg, String.join, ha]
 
 theorem concat_streamOf (mode : Mode) (r : Reply) : concat (streamOf mode r) = r.full := by
   cases mode with
   | stream => rfl
-  | generate => exact concat_single _ rfl rfl
+  | generate => exact concat_single _ rfl rfl (assemble_idem _)
+
+theorem concat_calls_nil_iff (cs : List Chunk) :
+    (concat cs).calls = [] ↔ ∀ c ∈ cs, c.calls = [] := by
+  simp only [concat, assemble_eq_nil_iff, List.flatMap_eq_nil_iff]
 
 /-! ## successors in the two topologies (closed computations over the tables) -/
 
@@ -720,22 +727,34 @@ theorem firstChunk_single (m : Msg) :
     · simp [runChecker, chunkAct, firstChunkChecker, CheckCond.holds, Chunk.ofMsg, hc, hs]
   | cons c cs => simp [runChecker, chunkAct, firstChunkChecker, CheckCond.holds, Chunk.ofMsg, hc]
 
+theorem assemble_isEmpty (ds : List ToolCall) : (assemble ds).isEmpty = ds.isEmpty := by
+  cases ds with
+  | nil => rfl
+  | cons d rest =>
+    cases h : assemble (d :: rest) with
+    | nil => exact absurd ((assemble_eq_nil_iff _).mp h) (by simp)
+    | cons _ _ => rfl
+
+theorem concat_calls_isEmpty (cs : List Chunk) :
+    (concat cs).calls.isEmpty = (cs.flatMap (·.calls)).isEmpty := assemble_isEmpty _
+
 theorem whole_chunks (cs : List Chunk) :
     runChecker wholeStreamChecker cs = !(concat cs).calls.isEmpty := by
+  rw [concat_calls_isEmpty]
   induction cs with
-  | nil => simp [runChecker, wholeStreamChecker, concat]
+  | nil => simp [runChecker, wholeStreamChecker]
   | cons c cs ih =>
     cases hc : c.calls with
     | nil =>
       have : runChecker wholeStreamChecker (c :: cs) = runChecker wholeStreamChecker cs := by
         simp [runChecker, chunkAct, wholeStreamChecker, CheckCond.holds, hc]
-      rw [this, ih]; simp [concat, hc]
+      rw [this, ih]; simp [hc]
     | cons x xs =>
-      simp [runChecker, chunkAct, wholeStreamChecker, CheckCond.holds, hc, concat]
+      simp [runChecker, chunkAct, wholeStreamChecker, CheckCond.holds, hc]
 
 theorem whole_single (m : Msg) :
     runChecker wholeStreamChecker [Chunk.ofMsg m] = !m.calls.isEmpty := by
-  rw [whole_chunks]; simp [concat, Chunk.ofMsg]
+  rw [whole_chunks, concat_calls_isEmpty]; simp [Chunk.ofMsg]
 
 /-- a chunk the first-chunk checker skips -/
 def Chunk.blank (c : Chunk) : Prop := c.content = "" ∧ c.calls = []
@@ -777,15 +796,12 @@ theorem firstChunk_agree (r : Reply) (h : ToolCallsInFirstNonEmptyChunk r) :
   rw [firstChunk_single]
   rcases h with h | ⟨pre, c, post, hch, hpre, hc⟩
   · rw [h]
-    have : ∀ c ∈ r.chunks, c.calls = [] := by
-      intro c hc
-      have : r.chunks.flatMap (·.calls) = [] := h
-      rw [List.flatMap_eq_nil_iff] at this
-      exact this c hc
+    have : ∀ c ∈ r.chunks, c.calls = [] := (concat_calls_nil_iff r.chunks).mp h
     rw [firstChunk_no_calls _ this]; rfl
   · have hfull : r.full.calls ≠ [] := by
-      simp only [Reply.full, concat, hch]
-      simp [hc]
+      intro h0
+      have := (concat_calls_nil_iff r.chunks).mp h0 c (by rw [hch]; simp)
+      exact hc this
     rw [hch, firstChunk_blank_prefix _ _ hpre]
     cases hcc : c.calls with
     | nil => exact absurd hcc hc
@@ -839,6 +855,90 @@ theorem rounds_map (cfg : Config) (dec : Reply → Bool) (f : Reply → Reply)
     | zero => simp [rounds]
     | succ b =>
       simp only [List.map_cons, rounds, hfull, hdec]
+      split
+      · cases b with
+        | zero => rfl
+        | succ b' =>
+          simp only
+          split
+          · rfl
+          · split
+            · rfl
+            · simp only [ih b' _]
+      · rfl
+
+/-! ## how the deltas of different tool calls are interleaved is not looked at -/
+
+/-- two lists related element by element (same length) -/
+inductive Pointwise {α β : Type} (R : α → β → Prop) : List α → List β → Prop
+  | nil : Pointwise R [] []
+  | cons {a : α} {b : β} {as : List α} {bs : List β} :
+      R a b → Pointwise R as bs → Pointwise R (a :: as) (b :: bs)
+
+/-- what a checker rule can see of a chunk -/
+def Chunk.SameShape (c c' : Chunk) : Prop :=
+  c.content = c'.content ∧ c.calls.isEmpty = c'.calls.isEmpty
+
+/-- `r'` streams the same reply as `r` with the tool-call deltas distributed differently: chunk
+    by chunk the same content and the same "carries tool-call deltas or not", and for every key
+    (every `Index`, and "no `Index`") the same deltas in the same order — the deltas of different
+    keys may be interleaved in any other way. -/
+def Reply.Reinterleaved (r r' : Reply) : Prop :=
+  Pointwise Chunk.SameShape r.chunks r'.chunks ∧
+  ∀ k, deltasOf k (r.chunks.flatMap (·.calls)) = deltasOf k (r'.chunks.flatMap (·.calls))
+
+theorem holds_shape (cond : CheckCond) {c c' : Chunk} (h : c.SameShape c') :
+    cond.holds c = cond.holds c' := by
+  cases cond with
+  | hasToolCalls => simp only [CheckCond.holds, h.2]
+  | emptyContent => simp only [CheckCond.holds, h.1]
+  | otherwise => rfl
+
+theorem chunkAct_shape (rules : List (CheckCond × CheckAct)) {c c' : Chunk} (h : c.SameShape c') :
+    chunkAct rules c = chunkAct rules c' := by
+  induction rules with
+  | nil => rfl
+  | cons ra rs ih =>
+    obtain ⟨cond, act⟩ := ra
+    simp only [chunkAct, holds_shape cond h, ih]
+
+theorem runChecker_shape (s : CheckerSpec) {cs cs' : List Chunk}
+    (h : Pointwise Chunk.SameShape cs cs') : runChecker s cs = runChecker s cs' := by
+  induction h with
+  | nil => rfl
+  | cons hc _ ih => simp only [runChecker, chunkAct_shape s.rules hc, ih]
+
+theorem content_shape {cs cs' : List Chunk} (h : Pointwise Chunk.SameShape cs cs') :
+    cs.map (·.content) = cs'.map (·.content) := by
+  induction h with
+  | nil => rfl
+  | cons hc _ ih => simp only [List.map_cons, hc.1, ih]
+
+theorem full_reinterleaved {r r' : Reply} (h : r.Reinterleaved r') : r.full = r'.full := by
+  have h1 := content_shape h.1
+  have h2 := assemble_congr _ _ h.2
+  simp only [Reply.full, concat]
+  rw [h1, h2]
+
+theorem goes_reinterleaved (F : Facts) (cfg : Config) (mode : Mode) {r r' : Reply}
+    (h : r.Reinterleaved r') : goes F cfg mode r = goes F cfg mode r' := by
+  cases mode with
+  | generate => simp only [goes, streamOf, full_reinterleaved h]
+  | stream => exact runChecker_shape _ h.1
+
+/-- `rounds` on two scripts whose replies have, one by one, the same whole message and the same
+    branch decision -/
+theorem rounds_rel (cfg : Config) (dec : Reply → Bool) {s1 s2 : List Reply}
+    (hs : Pointwise (fun r1 r2 => r1.full = r2.full ∧ dec r1 = dec r2) s1 s2) :
+    ∀ (b : Nat) (h : List Msg), rounds cfg dec s1 b h = rounds cfg dec s2 b h := by
+  induction hs with
+  | nil => intro b h; cases b <;> simp [rounds]
+  | cons hr _ ih =>
+    intro b h
+    cases b with
+    | zero => simp [rounds]
+    | succ b =>
+      simp only [rounds, hr.1, hr.2]
       split
       · cases b with
         | zero => rfl
